@@ -71,7 +71,7 @@ type memoCall struct {
 var tmpDir string
 
 // panicSite extracts the innermost frame inside the repository from a stack trace.
-var frameRe = regexp.MustCompile(`(?m)^(github\.com/corazawaf/coraza/v3[^\s(]*)`)
+var frameRe = regexp.MustCompile(`(?m)^(github\.com/corazawaf/coraza/v3\S*)\(`)
 
 func panicSite(stack string) string {
 	for _, m := range frameRe.FindAllStringSubmatch(stack, -1) {
@@ -656,6 +656,9 @@ func Run(cfg vh.Config) (*vh.Result, error) {
 		return nil, err
 	}
 	r.loadTables()
+	r.prepareFiles()
+	r.findOkDirectives()
+	res.Shards = []vh.ShardInfo{}
 
 	if cfg.Replay != "" {
 		b, err := os.ReadFile(cfg.Replay)
@@ -686,6 +689,12 @@ func Run(cfg vh.Config) (*vh.Result, error) {
 		r.generateConfs()
 	}
 	r.flush()
+	if r.shardN == 0 { // configuration-only runs still emit one (empty) shard
+		if si, err := vh.WriteShard(cfg.OutDir, vh.Shard{Name: "C07_0", Imports: "From Verif Require Import Base NoPanic CorrC07.",
+			CaseType: "CorrC07.case", MismatchF: "CorrC07.mismatches", Prelude: r.prelude}); err == nil {
+			res.Shards = append(res.Shards, si)
+		}
+	}
 	res.DistinctNontrivial = len(r.nontr)
 	res.Rule = "modelled-function cases: the input reaches the scanner's loop (contains one of its delimiters / a macro opener / a non-empty rule list / a limit that is hit); configuration cases: the configuration was accepted and the transaction script ran at least one phase"
 	res.InputDistribution = r.dist
